@@ -141,7 +141,7 @@ def sb_digest(entry):
     return wire.digest(sb_bytes(entry))
 
 
-MODES = ["644", "600", "640", "755", "444", "664"]
+MODES = ["644", "644", "600", "600", "640", "640", "755", "755", "444", "444", "664", "664", "4755", "2644", "400", "666"]
 UMASKS = ["022", "077", "002"]
 
 
